@@ -194,6 +194,7 @@ type cwServer struct {
 	mu     sync.Mutex
 	phase  string // init | bg | test | probe
 	bgPending int
+	resumeFails bool // the served event stream was `ssecutt`: its resumption GETs fail in transport
 	resumes   int // resumption GETs of the message's event stream
 	deletes   int // DELETE requests (the session is deleted at Close unless the server has said that it is gone)
 	posts  int
@@ -312,6 +313,9 @@ func (sv *cwServer) answer(req *http.Request, a string, idJSON string) (*http.Re
 			rec := httptest.NewRecorder()
 			writeEvent(rec, Event{ID: "w_0", Data: []byte{}})
 			r := sv.resp(req, 200, "text/event-stream", sid, rec.Body.String())
+			sv.mu.Lock()
+			sv.resumeFails = p[1] == "ssecutt" // how the resumption GETs of THIS stream are answered
+			sv.mu.Unlock()
 			if p[1] == "sseopen" {
 				r.Body = &cwOpenBody{data: rec.Body.Bytes(), ctx: req.Context()}
 			}
@@ -341,7 +345,10 @@ func (sv *cwServer) RoundTrip(req *http.Request) (*http.Response, error) {
 			sv.mu.Lock()
 			sv.resumes++
 			sv.mu.Unlock()
-			if strings.Contains(sv.s.a1+" "+sv.s.a2, "ssecutt") {
+			sv.mu.Lock()
+			failing := sv.resumeFails
+			sv.mu.Unlock()
+			if failing {
 				return nil, errors.New("verif: transport error")
 			}
 			<-req.Context().Done()
